@@ -33,6 +33,12 @@ def _apply(scratch, m):
         src = fh.read()
     edits = m.get("edits") or [(m["old"], m["new"])]
     for old, new in edits:
+        if m.get("regex"):
+            import re
+            src, k = re.subn(old, new, src, flags=re.S)
+            if k != m.get("count", 1):
+                return "anchor absent (%d regex matches)" % k
+            continue
         if src.count(old) != m.get("count", 1):
             return "anchor absent (%d occurrences)" % src.count(old)
         src = src.replace(old, new)
